@@ -113,7 +113,7 @@ BOUNDED_FILES = {
     'ordermap.rs': 'maps of at most 3 entries; key type u8 with == modulo 4',
     'opt.rs': 'sequences of at most 4 items, payload type u8',
     'value.rs': 'one representative payload per non-recursive constructor (no nested Value)',
-    'mapfns.rs': 'concrete maps of at most 3 entries at a mock value type (atoms and nested maps)',
+    'mapfns.rs': 'concrete maps of at most 3 entries (one nested map of 2) at a mock value type (atoms, null, nested maps)',
     'comment.rs': 'three concrete comment texts (single line, multi-line indented deeper than its block), two styles',
     'transformfns.rs': 'eight representative condition values; @while: at most 3 iterations',
     'scopefns.rs': 'at most three variables and two-element list values; six representative condition values',
@@ -257,14 +257,17 @@ FILE_ASSUMPTIONS = {
                    'BinOp::eval\'s error type is instantiated at (); the map-literal arm is instantiated at a u8 key type with == modulo 4 and a local Error stand-in'],
     'strfns.rs': [SNIP + 'Argument fetches are replaced: s.get(name!(x))? -> the real TryFrom<Value> conversion applied to a harness value, s.get_map(name!(x), check::unitless_int)? -> an i64 parameter'],
     'strfns_arith.rs': [SNIP + 'Argument fetches (s.get / s.get_map) are replaced by parameters'],
-    'mathfns.rs': [SNIP + 'Argument fetches (s.get / s.get_map) are replaced by parameters'],
+    'mathfns.rs': [SNIP + 'Argument fetches (s.get / s.get_map) are replaced by parameters',
+                   'clamp / unitless harnesses: inside `mod clampmock` / `mod unitlessmock` the names Numeric, Number, UnitSet, Value, CallError, diff_units_msg and expected_to are stand-ins (a double with a unit tag compared by value when the tags are compatible; `%` and `fr` have a unit but no dimension; error TEXT dropped) — that the real Numeric comparison / UnitSet::is_none behave like this is under contract in numeric.rs / unitset.rs, not here'],
     'transformfns.rs': [SNIP + 'Condition evaluation, body execution, the scope\'s format and the destination are replaced by probes that return harness-chosen values and count calls',
         'scope-shape harnesses (C16): inside `mod scopeshape` the names ScopeRef, SelectorCtx, handle_body and check_body are recording stand-ins, so the extracted arms are checked for WHICH scope they create and pass on; that Scope::sub / define / store_local_values / restore_local_values do what their names say is not proved here'],
     'scopefns.rs': [SNIP + 'self.define / the scope\'s variable map / define_global / get_or_none / eval_body are replaced by recording probes; '
-                    'define_multi is instantiated at element type u8 (iter_items -> a Vec<u8>)'],
+                    'define_multi is instantiated at element type u8 (iter_items -> a Vec<u8>)',
+                    'save/restore harness (C16): `variables` is a four-slot u8 table behind a RefCell instead of Mutex<BTreeMap<Name, Value>>, the parent scope a reference; the three method bodies are the real text'],
     'formalargs.rs': [SNIP + 'css::CallArgs is instantiated at a two-variant value type V (bodies of its methods extracted as well, OrderMap real); the sub-scope is a recording binder; '
                       'FormalArgs\' two fields are parameters with the default type instantiated at u8; ArgsError and Invalid are local stand-ins with the constructors the ranges use'],
-    'mapfns.rs': [SNIP + 'css::Value is replaced by a mock enum with the constructors the functions use (Atom, Map); OrderMap is the real generic one'],
+    'mapfns.rs': [SNIP + 'css::Value is replaced by a mock enum with the constructors the functions use (Atom, Map); OrderMap is the real generic one',
+                  'lookup harnesses: the value type holds nested maps and key lists behind references and compares them by identity (no harness uses a map or list as a key); CallError is a unit stand-in; argument fetches are replaced by parameters'],
     'cssdata.rs': [SNIP + 'The (never constructed) error type of the result is ()'],
     'cssstring.rs': [SNIP + 'Only the accumulation step of CssString::unquote; the character iterator is a probe; checked for every u32 accumulator value (inductive step)'],
     'colorfns.rs': [DEG_MOD, SNIP + 'Argument fetches are replaced by parameters'],
